@@ -31,6 +31,9 @@ def split(rng: random.Random, n: int, kmax: int = 5):
     return [0, *cuts, n]
 
 
+DERIVED = {"n": 0}
+
+
 def make_tiling(rng: random.Random, gb):
     from odc.geo.geobox import GeoboxTiles
 
@@ -44,6 +47,32 @@ def make_tiling(rng: random.Random, gb):
     else:
         oy, ox = split(rng, NY), split(rng, NX)
         how = (tuple(np.diff(oy).tolist()), tuple(np.diff(ox).tolist()))
+    # a third of the tilings are *derived*: the crop of a larger parent tiling whose first kept tile is not tile (0, 0) (what .crop / .clip hand to a worker)
+    import hashlib
+
+    hh = int.from_bytes(hashlib.blake2b(repr((gen.aff6(gb.affine), NY, NX, how)).encode(), digest_size=8).digest(), "big")
+    if hh % 3 == 0:
+        try:
+            from odc.geo.geobox import GeoBox
+
+            ky, kx = 1 + hh % 2, 1 + (hh >> 3) % 3
+            if isinstance(how[0], tuple):
+                ey, ex = tuple(2 + (hh >> (5 + i)) % 5 for i in range(ky)), tuple(1 + (hh >> (9 + i)) % 7 for i in range(kx))
+                phow = (ey + how[0], ex + how[1])
+                py, px = sum(ey), sum(ex)
+            else:
+                phow = how
+                py, px = ky * how[0], kx * how[1]
+            pgb = GeoBox((NY + py, NX + px), gb.affine * Affine.translation(-px, -py), gb.crs)
+            gen.warm(pgb, full=False)
+            parent = GeoboxTiles(pgb, phow)
+            parent.tiles(pgb.extent)  # the parent has been queried before it is cropped
+            derived = parent.crop[ky:, kx:]
+            if tuple(derived.base.shape) == (NY, NX) and gen.gbox_close(derived.base, gb, 1e-9) and tuple(map(tuple, derived.chunks)) == (tuple(np.diff(oy).tolist()), tuple(np.diff(ox).tolist())):
+                DERIVED["n"] += 1
+                return derived, oy, ox, how
+        except Exception:  # noqa: BLE001 - a derivation that fails or is wrong is C04's business; the plain tiling is used
+            pass
     return GeoboxTiles(gb, how), oy, ox, how
 
 
@@ -443,6 +472,10 @@ def run(mon: Monitor, tier: str, seed: int, shard: int, nshards: int) -> None:
             except Exception as e:
                 mon.error(kind, e)
     mon.case = None
+    mon.obs["tilings_that_are_crops_of_a_queried_parent"] += DERIVED["n"]
+    if DERIVED["n"] >= 50:
+        mon.ok("workload.derived-tilings")
+    mon.floor("workload.derived-tilings", 1)
     for pt, n in [("GeoboxTiles.tiles", 500), ("GeoboxTiles.range_from_bbox", 300), ("GeoboxTiles.grid_intersect", 300), ("GeoboxTiles.tiles|geometry|same-crs|inside", 30),
                   ("GeoboxTiles.tiles|geometry|same-crs|outside", 10), ("GeoboxTiles.tiles|geometry|other-crs|inside", 10), ("GeoboxTiles.tiles|bbox|same-crs|inside", 5),
                   ("GeoboxTiles.tiles|geometry|same-crs|larger", 10), ("GeoboxTiles.tiles|geometry|same-crs|touch", 5)]:
